@@ -24,7 +24,6 @@ from .. import cshist as ch
 from ..core import ROOT, Check, HarnessError, ddmin, proof_stage
 
 PROP = "C20"
-PFX_HEX = ch.PREFIX.encode().hex()
 
 TRUSTED = [
     "Lean 4.33.0 kernel; axioms of every theorem audited to be within {propext, Classical.choice, Quot.sound}",
@@ -53,15 +52,9 @@ KNOWN_SIGS = {
 
 
 def norm_dump(d: str):
+    """(stub keyspace as the caller names the keys - the driver applies removePrefix -, model keyspace)"""
     i = d.index(" model=")
-    stub, model = d[len("stub="):i], d[i + len(" model="):]
-
-    def strip(x):
-        head, body = x.split("[", 1)
-        ents = [e[len(PFX_HEX):] if e.startswith(PFX_HEX) else "?" + e for e in body[:-1].split(" ") if e]
-        return head + "[" + " ".join(ents) + "]"
-
-    return strip(stub), model
+    return d[len("stub="):i], d[i + len(" model="):]
 
 
 def classify(steps, i) -> str | None:
@@ -69,7 +62,7 @@ def classify(steps, i) -> str | None:
     s = steps[i]
     op = s["op"]
     c = op[1]
-    keys = [op[2]] if op[0] in ("get", "exists") else list(op[2]) if op[0] == "getmany" else ch.KEYS
+    keys = [op[2]] if op[0] in ("get", "exists") else list(op[2]) if op[0] == "getmany" else ch.case_keys([t["op"] for t in steps])
     if op[0] in ("get", "getmany") and "=" in s["impl"] and "=" in (s["server"] or ""):
         a, b = s["impl"].split("=", 1)[1].split(","), s["server"].split("=", 1)[1].split(",")
         if len(a) == len(b) and all(x == y or (x == "-" and y.startswith("i:-")) for x, y in zip(a, b)):
@@ -121,7 +114,7 @@ def judge(steps) -> list[dict]:
     return out
 
 
-ALLKEYS = ch.KEYS + ["k:zz"] + ch.LOCKS
+ALLKEYS: list[str] = []       # the keys of the history being judged (set by stats_of)
 
 
 def keys_read(op) -> list[str]:
@@ -147,8 +140,18 @@ def keys_changed(op) -> list[str]:
     return []
 
 
-def stats_of(steps) -> set[str]:
+def stats_of(steps, prefix=None) -> set[str]:
     st = set()
+    ALLKEYS[:] = ch.case_keys([t["op"] for t in steps])
+    pfx = prefix or ch.DEFAULT_PREFIX
+    if prefix is not None:
+        st.add("custom_prefix")
+    if any(pfx in k for k in ALLKEYS):
+        st.add("key_contains_prefix_text")
+    if any(k == pfx for k in ALLKEYS):
+        st.add("key_equals_prefix")
+    if any(a != b and b.startswith(a) for a in ALLKEYS for b in ALLKEYS):
+        st.add("keys_prefixes_of_each_other")
     dropped = set()
     last_writer: dict[str, int] = {}
     outage_reads: dict[int, set] = {}       # disconnected client -> keys it read since the drop / the last refused attempt
@@ -228,14 +231,15 @@ class Ctx:
         self.reported: set = set()
         self.found = 0
         self.pending_corr = None
+        self.prefix = None            # client_side_prefix of the case being run (None = the default)
 
     def run(self, n, ops):
-        steps = ch.run_case(self.drv, n, ops)
+        steps = ch.run_case(self.drv, n, ops, self.prefix)
         return steps, judge(steps)
 
     def account(self, n, ops, steps):
         self.evaluations += 1
-        st = stats_of(steps)
+        st = stats_of(steps, self.prefix)
         for k in st:
             self.interesting[k] = self.interesting.get(k, 0) + 1
         for s in steps:
@@ -249,7 +253,7 @@ class Ctx:
         props = [p for p in probs if p["kind"] == "property"]
         if not props:
             if self.pending_corr is None:
-                self.pending_corr = (n, ops, probs[0], origin)
+                self.pending_corr = (n, ops, probs[0], origin, self.prefix)
             return
         for p in props:
             key = p["sig"] or "fresh"
@@ -258,7 +262,7 @@ class Ctx:
             known = p["sig"] and any(f.get("status") == "known" and f.get("signature") == p["sig"] for f in self.chk.known)
             if known:
                 self.reported.add(p["sig"])
-                self.chk.violation(p["what"], replay_dict(n, ops, steps, p, origin), signature=p["sig"])
+                self.chk.violation(p["what"], replay_dict(n, ops, steps, p, origin, self.prefix), signature=p["sig"])
                 continue
             target = p["sig"]
 
@@ -276,13 +280,13 @@ class Ctx:
                 raise HarnessError(f"disagreement not reproducible on re-run: {p['what']}")
             if target:
                 self.reported.add(target)
-            self.chk.violation(p2["what"] + f" ({n} clients)", replay_dict(n, small, steps2, p2, origin), signature=target)
+            self.chk.violation(p2["what"] + f" ({n} clients)", replay_dict(n, small, steps2, p2, origin, self.prefix), signature=target)
             self.found += 1
             if key == "fresh":
                 break
 
     def report_correspondence(self):
-        n, ops, p, origin = self.pending_corr
+        n, ops, p, origin, self.prefix = self.pending_corr
 
         def fails(sub):
             try:
@@ -298,13 +302,13 @@ class Ctx:
             raise HarnessError(f"disagreement not reproducible on re-run: {p['what']}")
         self.chk.violation(
             "correspondence broken (client_side.py vs Model/ClientSide.lean; no read contradicting the server was found in this run): " + p2["what"],
-            dict(replay_dict(n, small, steps2, p2, origin), broken="correspondence Model/ClientSide.lean <-> cashews/backends/redis/client_side.py"),
+            dict(replay_dict(n, small, steps2, p2, origin, self.prefix), broken="correspondence Model/ClientSide.lean <-> cashews/backends/redis/client_side.py"),
             signature=None, no_input=True)
         self.found += 1
 
 
-def replay_dict(n, ops, steps, p, origin):
-    return {"clients": n, "ops": ops, "origin": origin, "first_problem_step": p["i"], "kind": p["kind"],
+def replay_dict(n, ops, steps, p, origin, prefix=None):
+    return {"clients": n, "prefix": prefix, "ops": ops, "origin": origin, "first_problem_step": p["i"], "kind": p["kind"],
             "trace": [dict({"line": s["line"], "impl": s["impl"], "server": s["server"], "model": s["model"], "detail": s["detail"]},
                            **({"model_local_copy_of_clients_in_outage": s["model_local"]} if "model_local" in s else {})) for s in steps],
             "replay_cmd": "./check C20 --replay <this file>"}
@@ -313,7 +317,7 @@ def replay_dict(n, ops, steps, p, origin):
 def corpus_cases():
     for f in sorted((ROOT / "corpus" / PROP).glob("*.json")):
         c = json.loads(f.read_text())
-        yield f.name, c["clients"], c["ops"]
+        yield f.name, c["clients"], c["ops"], c.get("prefix")
 
 
 def run(chk: Check) -> int:
@@ -321,8 +325,9 @@ def run(chk: Check) -> int:
     ctx = Ctx(chk)
     try:
         ncorpus = 0
-        for name, n, ops in corpus_cases():
+        for name, n, ops, pfx in corpus_cases():
             ncorpus += 1
+            ctx.prefix = pfx
             steps, probs = ctx.run(n, ops)
             ctx.account(n, ops, steps)
             if probs:
@@ -342,6 +347,10 @@ def run(chk: Check) -> int:
                 necho += 1
             else:
                 ops = ch.gen_history(chk.rng, n, 30 if i % 4 else 10, with_drops=(i % 5 != 0))
+            # the configured prefix and the key alphabet: default / short custom prefixes x plain keys / keys that contain the prefix
+            # text, equal it, end in it / keys that are prefixes of each other, a fragment of the prefix, the doubled prefix
+            ctx.prefix = ch.PREFIXES[i % len(ch.PREFIXES)]
+            ops = ch.rename_ops(ops, ch.keymaps(ctx.prefix)[(i // 2) % 3])
             steps, probs = ctx.run(n, ops)
             ctx.account(n, ops, steps)
             if probs:
@@ -364,6 +373,10 @@ def run(chk: Check) -> int:
                     "clients (overwrite, create, delete, incr, expire 0, pipeline, flush, pattern delete), more reads, then the "
                     "accepted attempt, reads, another change, reads; a case is non-trivial iff it reached an interesting state "
                     "(interesting_states_cases); distinct = distinct (clients, ops)",
+            "prefix_and_key_alphabet_rule": "history i runs with client_side_prefix = [default, 'c:', default, 'k:', 'v1:'][i % 5] and its keys renamed by "
+                                            "alphabet (i // 2) % 3: 0 plain (k:a k:b j:a k:zz L:a - under the prefix 'k:' these already contain the prefix "
+                                            "text); 1 the prefix text again inside a key, a key equal to the prefix, a key ending in the prefix; 2 keys that are "
+                                            "prefixes of each other ('k:', 'k:<prefix>'), a fragment of the prefix, the doubled prefix",
             "outage_histories": noutage,
             "echo_motif_histories": necho,
             "echo_motif_rule": "every eighth history consists of 4 motifs `client a gets into a state about a key (knows it absent / has it cached / "
@@ -391,6 +404,7 @@ def replay(chk: Check, path: str) -> int:
         return 0
     ctx = Ctx(chk)
     try:
+        ctx.prefix = c.get("prefix")
         steps, probs = ctx.run(c["clients"], c["ops"])
         for s in steps:
             print(f"{s['line'][:50]:50s} impl={s['impl'][:40]:40s} server={str(s['server'])[:40]:40s} model={s['model'][:40]}"
